@@ -80,6 +80,8 @@ func main() {
 		h.GenLife(rng, thorough, emit)
 	case "lmtp":
 		h.GenLmtp(rng, thorough, emit)
+	case "c09":
+		h.GenC09(rng, thorough, emit)
 	case "c12":
 		h.GenC12(rng, thorough, emit)
 	case "tls":
